@@ -360,7 +360,7 @@ func ResolveIte(t *sym.Term, asg map[*sym.Term]bool) *sym.Term {
 	memo := map[*sym.Term]*sym.Term{}
 	var rec func(t *sym.Term) *sym.Term
 	rec = func(t *sym.Term) *sym.Term {
-		if len(t.Args) == 0 {
+		if len(t.Args) == 0 && !(t.Sort == sym.Bool && t.Op == "s") {
 			return t
 		}
 		if r, ok := memo[t]; ok {
@@ -372,6 +372,9 @@ func ResolveIte(t *sym.Term, asg map[*sym.Term]bool) *sym.Term {
 				r = sym.ConstBool(v)
 				memo[t] = r
 				return r
+			}
+			if len(t.Args) == 0 {
+				return t
 			}
 		}
 		if t.Op == "ite" && allAtomsIn(FTerm(t.Args[0]), asg) {
